@@ -13,7 +13,7 @@
 From Coq Require Import List.
 Import ListNotations.
 From WB Require Import Base.Str Base.Json Model.Key Model.Consts Model.Store Model.Match Model.Subs Model.Entry Model.Core
-  Proofs.SubsFacts Proofs.MatchFacts Proofs.CoreFacts Proofs.C01Proof Proofs.C03Proof Proofs.StreamProof Proofs.StreamAll Proofs.FoldProof.
+  Proofs.SubsFacts Proofs.MatchFacts Proofs.CoreFacts Proofs.C01Proof Proofs.C03Proof Proofs.StreamProof Proofs.StreamAll Proofs.FoldProof Proofs.NoCrash Proofs.Unconditional.
 
 (* routing through the subscriber tree = the relation sub_match on the registered position *)
 Theorem C03_routing :
@@ -172,6 +172,28 @@ Theorem C03_matchers_agree_without_multi :
   forall P q, ~ In Multi P -> sub_match P q = store_match P q.
 Proof. exact matchers_agree. Qed.
 Print Assumptions C03_matchers_agree_without_multi.
+
+(* ---- the same without crash hypotheses (Proofs/NoCrash.v, Proofs/Unconditional.v) ----
+   [safe_op] excludes only a cset at version u64::MAX (F17), an import of a tree with irregular names and the nil client
+   id at session start/end: no such request takes a crash branch, so for a subscription registered after ANY safe
+   history [pre] and followed through ANY safe history [os]: *)
+Theorem C03_stream_all_safe :
+  forall pre os sb, Forall safe_op (pre ++ os) -> Registered (final init pre) sb -> Forall (foreign sb) os ->
+    stream (s_inst sb) (final init pre) os = wanted_stream sb (final init pre) os.
+Proof. exact stream_all_safe. Qed.
+Print Assumptions C03_stream_all_safe.
+
+Theorem C03_silent_all_safe :
+  forall pre os i, Forall safe_op (pre ++ os) -> Gone (final init pre) i -> stream i (final init pre) os = [].
+Proof. exact silent_all_safe. Qed.
+Print Assumptions C03_silent_all_safe.
+
+Theorem C03_fold_is_pget_safe :
+  forall pre os sb F, Forall safe_op (pre ++ os) -> s_pstate sb = true -> Registered (final init pre) sb ->
+    Forall quiet_kind os -> Forall (foreign sb) os -> AgreeM sb (val_of (final init pre)) F ->
+    AgreeM sb (val_of (final (final init pre) os)) (fold_evs F (stream (s_inst sb) (final init pre) os)).
+Proof. exact fold_is_pget_safe. Qed.
+Print Assumptions C03_fold_is_pget_safe.
 
 (* non-vacuity: a pattern subscription followed through a wildcard delete, an import, another client's
    subscription and session end with grave goods and last will *)
